@@ -9,6 +9,7 @@ import (
 	"github.com/valyala/fasthttp/internal/verif/mcrt"
 )
 
+//go:norace
 func Now() Time {
 	if mcrt.W() == nil {
 		return rtime.Now()
@@ -16,9 +17,13 @@ func Now() Time {
 	return mcrt.Now()
 }
 
+//go:norace
 func Since(t Time) Duration { return Now().Sub(t) }
+
+//go:norace
 func Until(t Time) Duration { return t.Sub(Now()) }
 
+//go:norace
 func Sleep(d Duration) { mcrt.Sleep(d) }
 
 // Timer mirrors time.Timer (go1.23+ semantics, see mcrt.VTimer).
@@ -28,6 +33,7 @@ type Timer struct {
 	rt *rtime.Timer
 }
 
+//go:norace
 func NewTimer(d Duration) *Timer {
 	if mcrt.W() == nil {
 		rt := rtime.NewTimer(d)
@@ -37,6 +43,7 @@ func NewTimer(d Duration) *Timer {
 	return &Timer{C: v.C, v: v}
 }
 
+//go:norace
 func (t *Timer) Stop() bool {
 	if t.rt != nil {
 		return t.rt.Stop()
@@ -44,6 +51,7 @@ func (t *Timer) Stop() bool {
 	return t.v.Stop()
 }
 
+//go:norace
 func (t *Timer) Reset(d Duration) bool {
 	if t.rt != nil {
 		return t.rt.Reset(d)
@@ -51,8 +59,10 @@ func (t *Timer) Reset(d Duration) bool {
 	return t.v.Reset(d)
 }
 
+//go:norace
 func After(d Duration) <-chan Time { return NewTimer(d).C }
 
+//go:norace
 func AfterFunc(d Duration, f func()) *Timer {
 	if mcrt.W() == nil {
 		return &Timer{rt: rtime.AfterFunc(d, f)}
@@ -66,6 +76,7 @@ type Ticker struct {
 	rt *rtime.Ticker
 }
 
+//go:norace
 func NewTicker(d Duration) *Ticker {
 	if d <= 0 {
 		panic("non-positive interval for NewTicker")
@@ -78,6 +89,7 @@ func NewTicker(d Duration) *Ticker {
 	return &Ticker{C: v.C, v: v}
 }
 
+//go:norace
 func (t *Ticker) Stop() {
 	if t.rt != nil {
 		t.rt.Stop()
@@ -86,6 +98,7 @@ func (t *Ticker) Stop() {
 	t.v.Stop()
 }
 
+//go:norace
 func (t *Ticker) Reset(d Duration) {
 	if t.rt != nil {
 		t.rt.Reset(d)
@@ -94,4 +107,5 @@ func (t *Ticker) Reset(d Duration) {
 	t.v.ResetPeriod(d)
 }
 
+//go:norace
 func Tick(d Duration) <-chan Time { return NewTicker(d).C }
